@@ -320,7 +320,7 @@ def r8_last_ref_wakes(ctx, rid='C19.R8'):
         r.check(need, 'drop_stream_ref|wake-guard|shape', f.loc(bi), 'the wake is for closed streams whose last reference went away (ref_count == 0 && is_closed)')
     # the stream's own reference count is decremented before it is tested for the wake
     rd = [bi for bi, t in f.calls(lambda t: t['fn'].endswith('stream::Stream::ref_dec'))]
-    tests = [bi for bi, sw in core.all_switches(F, f).items() if sw is not None and 'field:ref_count' in core.predicate_atoms(sw)
+    tests = [bi for bi, sw in core.all_switches(F, f).items() if sw is not None and 'field:ref_count' in core.expand_atoms(F, core.predicate_atoms(sw), {'call:is_closed'})
              and any(bi in core.control_switches(F, f, w) for w in wakes)]
     r.check(bool(rd) and bool(tests) and all(f.dominated_by_blocks(t_, rd) for t_ in tests), 'drop_stream_ref|dec-before-test', f.file,
             'Stream::ref_dec() runs before ref_count is tested for the wake (%d test(s))' % len(tests))
@@ -348,6 +348,7 @@ def run(ctx):
     _run_rules(ctx)
     from .. import boundaries
     boundaries.check(ctx, 'C19.RB', 'C19')
+    boundaries.check_writes(ctx, 'C19.RW', 'C19')
     from . import C14
     C14.r7_no_loss(ctx, 'C19.R9', C14.GOAWAY_SLOT, floor=3)  # a GOAWAY that is due is never dropped under write back-pressure
     boundaries.check_guards(ctx, 'C19.RG', 'C19')
